@@ -13,6 +13,11 @@ import (
 
 var _ net.Listener = (*blockedClientListener)(nil)
 
+// maxPendingKnocks is how many acknowledged knocks a listener remembers while
+// nobody is accepting on it. Each one stands for a stream the other side has
+// opened, or is about to open, for this listener.
+const maxPendingKnocks = 64
+
 // blockedClientListener accepts connections for a specific gRPC broker stream
 // ID on the client (host) side of the connection.
 type blockedClientListener struct {
@@ -23,7 +28,7 @@ type blockedClientListener struct {
 
 func newBlockedClientListener(session *yamux.Session, doneCh <-chan struct{}) *blockedClientListener {
 	return &blockedClientListener{
-		waitCh:  make(chan struct{}, 1),
+		waitCh:  make(chan struct{}, maxPendingKnocks),
 		doneCh:  doneCh,
 		session: session,
 	}
@@ -49,26 +54,45 @@ func (b *blockedClientListener) Close() error {
 	// announced a stream that nobody is going to take any more. Left in the
 	// session it would be handed to the next listener that is unblocked, which
 	// is the listener of another ID, in place of that listener's own stream.
-	// Take it out of the session instead.
-	select {
-	case <-b.waitCh:
-		discarded := make(chan struct{})
-		go func() {
-			defer close(discarded)
-			if conn, err := b.session.Accept(); err == nil {
-				_ = conn.Close()
-			}
-		}()
-		// The stream is normally there already, or one round trip away.
+	// Take those streams out of the session instead.
+	announced := 0
+	for drained := false; !drained; {
 		select {
-		case <-discarded:
-		case <-time.After(100 * time.Millisecond):
+		case <-b.waitCh:
+			announced++
+		default:
+			drained = true
 		}
-	default:
+	}
+	if announced == 0 {
+		return nil
+	}
+
+	discarded := make(chan struct{})
+	go func() {
+		defer close(discarded)
+		for i := 0; i < announced; i++ {
+			conn, err := b.session.Accept()
+			if err != nil {
+				return
+			}
+			_ = conn.Close()
+		}
+	}()
+	// The streams are normally there already, or one round trip away.
+	select {
+	case <-discarded:
+	case <-time.After(100 * time.Millisecond):
 	}
 	return nil
 }
 
+// unblock records that a stream has been announced for this listener. It
+// never blocks: it is called with the muxer's lock held, and a listener that
+// nobody is accepting on must not hold up the knocks of every other ID.
 func (b *blockedClientListener) unblock() {
-	b.waitCh <- struct{}{}
+	select {
+	case b.waitCh <- struct{}{}:
+	default:
+	}
 }
